@@ -335,7 +335,11 @@ def expand(files, top, max_fetch=150):
     if len(ctx.included) != len(set(ctx.included)): ctx.labels.add('diamond')
     if ctx.maxchain >= 3: ctx.labels.add('depth>=2')
     if ctx.maxchain >= 4: ctx.labels.add('depth>=3')
-    if d['root'][0] == 'inc': ctx.labels.add('include-as-document-element')
+    if d['root'][0] == 'inc':
+        ctx.labels.add('include-as-document-element')
+        ctx.labels.add('document-element-from-fallback' if (any(c[0] == 'fb' for c in d['root'][2]) and ctx.causes == [] and
+                       path_of(resolve(dict(map(tuple, d['root'][1])).get('href', 'x'), turi)) not in files) else 'document-element-from-target')
+        if d['pro'] or d['epi']: ctx.labels.add('misc-around-root-include')
     return ctx, merge_text(items)
 
 # ------------------------------------------------------------------------------------------------
